@@ -435,3 +435,70 @@ def possibly_unbound(src: str) -> List[Tuple[int, str, str]]:
             for ln, name in _DA(fn).run():
                 out.append((ln, name, fn.name))
     return sorted(set(out))
+
+
+# ---------------------------------------------------------------------------------------------------------------
+def undefined_attributes(classes: Dict[str, ast.ClassDef], resolve_base) -> List[Tuple[int, str, str]]:
+    """[(lineno, class, attribute)] for `self.X` reads where neither the class, nor any base class (all of which must be resolvable
+    to a class of the analysed package — otherwise the class is skipped), assigns `self.X`, defines a method / property / class
+    attribute X, or declares X in a class-level annotation.  What remains when `self.x = x` is deleted from `__init__`."""
+    def info(c: ast.ClassDef):
+        defined, loads = set(), []
+        for st in c.body:
+            if isinstance(st, (ast.FunctionDef, ast.AsyncFunctionDef, ast.ClassDef)):
+                defined.add(st.name)
+            elif isinstance(st, ast.Assign):
+                for t in st.targets:
+                    for x in ast.walk(t):
+                        if isinstance(x, ast.Name):
+                            defined.add(x.id)
+                            if x.id == "__slots__":     # slot names are attributes of the instances
+                                defined |= {e.value for e in ast.walk(st.value) if isinstance(e, ast.Constant) and isinstance(e.value, str)}
+            elif isinstance(st, ast.AnnAssign) and isinstance(st.target, ast.Name):
+                defined.add(st.target.id)
+        for m in c.body:
+            if not isinstance(m, (ast.FunctionDef, ast.AsyncFunctionDef)) or not m.args.args:
+                continue
+            me = m.args.args[0].arg
+            if any(isinstance(d, ast.Name) and d.id in ("staticmethod", "classmethod") for d in m.decorator_list):
+                continue
+            for n in ast.walk(m):
+                if isinstance(n, ast.Attribute) and isinstance(n.value, ast.Name) and n.value.id == me:
+                    if isinstance(n.ctx, (ast.Store, ast.Del)):
+                        defined.add(n.attr)
+                    else:
+                        loads.append((n.lineno, n.attr))
+                if isinstance(n, ast.Call) and isinstance(n.func, ast.Name) and n.func.id in ("setattr", "getattr", "hasattr") and n.args \
+                        and isinstance(n.args[0], ast.Name) and n.args[0].id == me:
+                    defined.add("*")
+        return defined, loads
+    out = []
+    for qual, c in classes.items():
+        seen, todo, defined, ok = set(), [c], set(), True
+        own_loads = None
+        while todo and ok:
+            k = todo.pop()
+            if id(k) in seen:
+                continue
+            seen.add(id(k))
+            d, l = info(k)
+            defined |= d
+            if own_loads is None:
+                own_loads = l
+            for b in k.bases:
+                bn = ast.unparse(b).split("[")[0]
+                if bn in ("object", "Generic", "Protocol", "ABC", "abc.ABC"):
+                    continue
+                r = resolve_base(k, b)
+                if r is None:
+                    ok = False
+                    break
+                todo.append(r)
+            if any(kw.arg == "metaclass" for kw in k.keywords):
+                pass
+        if not ok or "*" in defined or any(n in defined for n in ("__getattr__", "__getattribute__")):
+            continue
+        for ln, a in own_loads or []:
+            if a not in defined and not (a.startswith("__") and a.endswith("__")):
+                out.append((ln, qual, a))
+    return sorted(set(out))
